@@ -46,33 +46,44 @@ Proof. split; reflexivity. Qed.
        AST is the AST of the text the server saw, and every cached HIR chunk is the lowering of the AST chunk at
        the same index (HIRDiff::new / update / fix keep the two lists aligned) *)
 Theorem quick_check_single :
-  forall (lower : chunk -> option hchunk) (cname : chunk -> Z) (hname : hchunk -> Z) (hfailed : hchunk -> bool)
+  forall (lower : chunk -> lowered) (cname : chunk -> Z) (hname : hchunk -> Z) (hfailed : hchunk -> bool)
          (D : Type) (s : fstate D) old hs,
   f_mod D s = Some {| e_ast := Some old; e_hir := Some hs |} ->
   aligned lower old hs ->
   edit1 old (ast_of (f_text D s)) ->
-  (forall c, In c (ast_of (f_text D s)) -> lower c <> None) ->
+  (forall c, In c (ast_of (f_text D s)) -> exists h, lower c = LSome h) ->
   exists s' hs', quick_check lower cname hname hfailed D s = Ok s' /\
     f_mod D s' = Some {| e_ast := Some (ast_of (f_text D s)); e_hir := Some hs' |} /\
     aligned lower (ast_of (f_text D s)) hs'.
 Proof. exact quick_check_single_l. Qed.
 
-(** 6. no history makes the modelled handlers panic (with or without the text comparison) *)
+(** KNOWN FINDING C29-quick-check-panics (known/C29.json).  The checker can panic while it lowers one chunk in the
+    context an earlier analysis left (`... has qvar`); the didChange handler (quick_check_file: HIRDiff::new,
+    HIRDiff::fix) then panics although a fresh analysis of the same text does not.  The guard of theorems 6 and 7,
+    [Known_C29 = lower_total lower]: lowering never panics.  In the model: *)
+Theorem quick_check_lower_panic_refuted :
+  run wp_lower w_name w_name w_failed text w_check w_full_hir true (open text w_check w_full_hir w2_t0 [])
+      [EChange true [(1, 0); (2, 1)]; EChange true [(1, 0); (2, 2)]] = Panic.
+Proof. exact lower_panic_refuted_l. Qed.
+
+(** 6. outside that class no history makes the modelled handlers panic (with or without the text comparison) *)
 Theorem run_no_panic :
   forall lower cname hname hfailed (D : Type) (check : text -> D) full_hir textcmp evs s,
+  lower_total lower ->
   run lower cname hname hfailed D check full_hir textcmp s evs <> Panic.
-Proof. intros. apply run_no_panic_l. Qed.
+Proof. intros. now apply run_no_panic_l. Qed.
 
-(** 7. CONVERGENCE.  For every analysis function, every lowering function, every document and every history of
-       didChange (any texts, any number of changed chunks, quick-checked or not), didSave (whatever the module graph
-       answers) and polling ticks: when the history ends in a didSave or a polling tick, the diagnostics published
-       last for the document are [check] of the final text, which is what a fresh server publishes when it opens
-       that text.
+(** 7. CONVERGENCE.  For every analysis function, every lowering function (that does not panic), every document and
+       every history of didChange (any texts, any number of changed chunks, quick-checked or not), didSave (whatever
+       the module graph answers) and polling ticks: when the history ends in a didSave or a polling tick, the
+       diagnostics published last for the document are [check] of the final text, which is what a fresh server
+       publishes when it opens that text.
        (The invariant is not "cached AST = AST of the last text" — quick_check_file breaks that on every
        notification that changes two chunks, theorem 4 — but "published = check (checked_code)", and didSave skips
        the analysis only when checked_code is the current text.) *)
 Theorem convergence :
   forall lower cname hname hfailed (D : Type) (check : text -> D) full_hir t0 d0 evs last,
+  lower_total lower ->
   is_recheck last ->
   exists s, run lower cname hname hfailed D check full_hir true (open D check full_hir t0 d0) (evs ++ [last]) = Ok s /\
             f_text D s = final_text t0 evs /\
